@@ -12,6 +12,7 @@
 #include <fcntl.h>
 #include <signal.h>
 #include <stdio.h>
+#include <time.h>
 #include <stdlib.h>
 #include <string.h>
 #include <unistd.h>
@@ -104,6 +105,14 @@ int main(int argc, char **argv)
   }
   if ((s = getenv("SI_FD6_HEX"))) { char *b = malloc(strlen(s) + 2); size_t n = unhex(s, b); if (write(6, b, n) < 0) {} }
   if ((s = getenv("SI_OUT_HEX"))) { char *b = malloc(strlen(s) + 2); size_t n = unhex(s, b); if (write(1, b, n) < 0) {} }
+  if ((s = getenv("SI_LINGER_MS"))) {
+    /* the program gives up all its descriptors and only dies a little later: its parent sees end-of-file on every pipe long before the
+       exit status exists (a real program may do this, e.g. by closing stdout before a slow cleanup or a crash in an exit handler) */
+    int i; struct timespec ts; long ms = atol(s);
+    for (i = 0; i < 64; i++) close(i);
+    ts.tv_sec = ms / 1000; ts.tv_nsec = (ms % 1000) * 1000000L;
+    while (nanosleep(&ts, &ts) == -1) ;
+  }
   if ((s = getenv("SI_KILL"))) { signal(atoi(s), SIG_DFL); raise(atoi(s)); }
   if (getenv("SI_EXEC") && code == 0 && argc > 1) { execvp(argv[1], argv + 1); _exit(111); }
   _exit(code);
